@@ -241,7 +241,8 @@ impl Scenario for Flow {
             "C02" | "C11" | "C12" => &["substituted_first_fragment", "crc_only_end_packet", "zero_payload_first_fragment", "gse_len_4095", "total_len_65535"],
             "C04" | "C15" => &["substituted_reuse", "substituted_first_fragment"],
             "C07" => &["aliasing_stray_on_open_slot", "restart_same_fid", "first_fragment_claims_aliased_slot"],
-            "C10" | "C19" => &["rejected_packet_walked", "padding_walked", "substituted_reuse"],
+            "C10" => &["rejected_packet_walked", "padding_walked", "substituted_reuse"],
+            "C19" => &["rejected_packet_walked", "padding_walked", "substituted_reuse", "peek.shortest_intermediate_packet_alone", "peek.shortest_end_packet_alone", "packet_followed_by_further_bytes"],
             _ => &[],
         }
     }
@@ -409,6 +410,32 @@ impl Scenario for Flow {
                             let site = format!("{}:lt{}:{}", kind.name(), lt, if flights[fi].has_ext { "ext" } else { "noext" });
                             if ex.report(Violation::new("C19", "C19.peek_value", site, format!("peek returned {:?}, expected {:?}", pkr, want))) {
                                 stop!();
+                            }
+                        }
+                        // reach: which packet shapes were peeked (alone / followed by further bytes)
+                        {
+                            let mut ph = H64::new();
+                            ph.s(kind.name());
+                            ph.u(lt as u64);
+                            ph.u(flights[fi].has_ext as u64);
+                            ph.u(trailed.is_some() as u64);
+                            ex.st.cov("peek_cell", ph.0);
+                        }
+                        if kind == Kind::Inter && pkt.len() == 4 {
+                            ex.st.inc("probe.peek.shortest_intermediate_packet_alone");
+                        }
+                        if kind == Kind::End && pkt.len() == 7 {
+                            ex.st.inc("probe.peek.shortest_end_packet_alone");
+                        }
+                        // the fragment id decap associates: the PDU completed at this end packet is the one of the
+                        // transfer that owns the peeked id
+                        if let (Ok(LabelorFragId::FragId(x)), Kind::End, "completed", false, false) = (pkr, kind, obs.class, tainted, must_reject) {
+                            let mut h = H64::new();
+                            h.b(&flights[fi].pdu);
+                            if *x == flights[fi].fid && (obs.pdu_hash != h.0 || obs.pdu_len != flights[fi].pdu.len()) {
+                                if ex.report(Violation::new("C19", "C19.peek_vs_decap", "end:fragment_id".to_string(), format!("peek names frag id {}, whose transfer carries a {}-byte PDU, but decap completed another PDU ({} bytes) at this packet", x, flights[fi].pdu.len(), obs.pdu_len))) {
+                                    stop!();
+                                }
                             }
                         }
                         // agreement with decap's own association
@@ -638,6 +665,7 @@ impl Scenario for Flow {
                     let em = Emitted { call, pdu: &pdu, ptype, label: lab, fid, exts: &exts, ctx: None, before: &before, after: &buf, res: &res };
                     let (v6, parsed) = mon::check_c06(&em);
                     if let Some(prev) = &prev {
+                        ex.st.inc(mon::c18_cell(call, prev, &res, parsed.as_ref(), sub_possible));
                         if let Some(v) = mon::check_c18(call, prev, &res, parsed.as_ref(), sub_possible, ptype, buf_len, len) {
                             if ex.report(v) {
                                 stop!();
@@ -874,6 +902,7 @@ impl Scenario for Flow {
                     let f = &flights[fi];
                     let em = Emitted { call: Call::EncapFrag, pdu: &f.pdu, ptype: f.ptype, label: Lab::ReUse, fid: f.fid, exts: &[], ctx: Some(ctx), before: &before, after: &buf, res: &res };
                     let (v6, parsed) = mon::check_c06(&em);
+                    ex.st.inc(mon::c18_cell(Call::EncapFrag, &prev, &res, parsed.as_ref(), false));
                     if let Some(v) = mon::check_c18(Call::EncapFrag, &prev, &res, parsed.as_ref(), false, f.ptype, buf_len, f.pdu.len()) {
                         if ex.report(v) {
                             stop!();
@@ -1461,7 +1490,15 @@ pub mod gen {
             "C02" | "C18" => gen_c02(rng, target),
             "C04" | "C15" => gen_c04(rng, target == "C15"),
             "C07" => gen_c07(rng, idx),
-            "C10" | "C19" => gen_c10(rng),
+            "C10" => gen_c10(rng),
+            // the peek is compared on every sender-produced packet of any lock-step run: frames (c10), extension
+            // chains fragmented at every offset and long PDUs (c13), interleaved streams (c07), size corners (c02)
+            "C19" => match rng.below(6) {
+                0 | 1 => gen_c10(rng),
+                2 | 3 => gen_c13(rng),
+                4 => gen_c07(rng, u64::MAX),
+                _ => gen_c02(rng, "C02"),
+            },
             "C13" => gen_c13(rng),
             "C06" => match rng.below(4) {
                 0 => gen_c01(rng),
@@ -1909,7 +1946,7 @@ pub mod gen {
             for _ in 0..npk {
                 let flip = if corrupt && rng.chance(1, 6) { 1 + rng.below(4000) } else { 0 };
                 if open > 0 && rng.chance(1, 2) {
-                    let b = *rng.pick(&[5usize, 9, 20, 60, 300, 4097, 4097, 6000, 70_000]);
+                    let b = *rng.pick(&[4usize, 5, 7, 9, 20, 60, 300, 4097, 4097, 6000, 70_000]);
                     let mut o = cont(rng.below(4) as usize, b);
                     if flip > 0 {
                         o = o.u("flip", flip);
